@@ -32,7 +32,7 @@ structure LHeap where
   lists : Nat → Option LHdr
 
 /-- what ARES__LLIST_INSERT_BEFORE does on the tree under check (see the header comment) -/
-def pinnedLinkPrev : Bool := false
+def pinnedLinkPrev : Bool := true
 
 namespace LHeap
 
